@@ -64,6 +64,10 @@ Apply(e, s) ==
      IF s.st = "unloaded" THEN [s EXCEPT !.res = "unknown"]
      ELSE IF s.st = "loaded" THEN [s EXCEPT !.st = "unloaded"]       \* nothing to stop: the unload goes through
      ELSE [s EXCEPT !.alive = AllDead, !.st = IF e.held THEN "loaded" ELSE "unloaded", !.termCb = @ + 1, !.why = "shutdown", !.checkwhy = TRUE]
+  ELSE IF e.op = "depstopstart" THEN
+     \* the dependency is stopped (its member keeps the stop in progress for a while) and the application is started meanwhile: the
+     \* start must be refused (see Compare), so nothing changes here; the dependency ends up loaded
+     IF dep /\ s.depst = "running" THEN [s EXCEPT !.depst = "loaded", !.res = "ok"] ELSE s
   ELSE IF e.op \in {"stop", "stopforce"} THEN
      IF s.st = "unloaded" THEN [s EXCEPT !.res = "unknown"]
      ELSE IF s.st = "loaded" THEN s
@@ -76,6 +80,8 @@ Compare(e, s) ==
   IF "NoHang" \in Checks /\ e.hung THEN "NoHang"
   \* an application that is running or stopping cannot be unloaded
   ELSE IF "UnloadRefused" \in Checks /\ e.op = "stopunload" /\ e.held /\ s.checkwhy /\ e.res2 = "ok" THEN "UnloadRefused"
+  \* an application whose dependency is on its way down cannot be started
+  ELSE IF "StartNeedsDeps" \in Checks /\ e.op = "depstopstart" /\ e.held /\ e.res2 = "ok" THEN "StartNeedsDeps"
   \* ApplicationStopForce waits with a zero timeout: it may report "stopping" although everything is down (not judged)
   ELSE IF "Result" \in Checks /\ e.res # s.res /\ ~(e.op = "stopforce" /\ e.res = "stopping" /\ s.res = "ok") THEN "Result"
   ELSE IF "State" \in Checks /\ e.state # s.st THEN "State"
